@@ -20,6 +20,7 @@ NAME_POOLS = [
     ['ceilometer_with_a_very_long_name_' + 'x' * 40 + str(i) for i in range(8)],
     ['Zürich', 'Genève', 'Sion✈', 'Bâle', 'Ünter', 'ß', 'é', 'è'],
     ['c%d' % i for i in range(8)],
+    ['CL31', 'CL31 ', ' CL31', ' CL31 ', 'cl31', 'Cl31', 'CL31\t', 'CL31\n'],    # equal up to blanks / case
 ]
 
 STR = pd.StringDtype()
@@ -88,7 +89,7 @@ def dedupe(rows):
             continue
         kind = 'z' if r[3] == 0 else ('v' if r[3] == -1 else 'h')
         have = per.get((r[0], r[1]))
-        if have is not None and not (have == 'h' and kind == 'h'):
+        if have is not None and not (have == kind and kind in ('h', 'v')):
             continue        # a non-detection or a VV hit stays alone on its (ceilo, dt)
         seen.add(key)
         per[(r[0], r[1])] = kind
@@ -237,6 +238,24 @@ def add_anomalies(rng, rows):
                 ts = [rows[j][3] for j in js]
                 for j, t in zip(js, [ts[q] for q in rng.permutation(len(ts))]):
                     rows[j][3] = t
+    if rng.uniform() < 0.2:      # one measurement reporting the same hit type twice (accepted silently)
+        extra = []
+        for r in rows:
+            if r[3] in (1, -1, 2) and r[2] == r[2] and rng.uniform() < 0.25:
+                extra.append([r[0], r[1], float(r[2] + rng.choice([-60.0, 10.0, 35.0, 250.0])), r[3]])
+        rows = rows + extra
+    if rng.uniform() < 0.2:      # one measurement reporting the same height under several hit types
+        extra = []
+        per = {}
+        for r in rows:
+            if r[3] > 0:
+                per[(r[0], r[1])] = max(per.get((r[0], r[1]), 0), r[3])
+        for r in rows:
+            if r[3] > 0 and r[2] == r[2] and rng.uniform() < 0.3 and per[(r[0], r[1])] == r[3]:
+                extra.append([r[0], r[1], r[2], r[3] + 1])
+                if rng.uniform() < 0.4:
+                    extra.append([r[0], r[1], r[2], r[3] + 2])
+        rows = rows + extra
     u = rng.uniform()
     if u < 0.1:
         for r in rows:
@@ -383,6 +402,55 @@ def close_chain_scene(rng, nl=None, order=None, nce=None):
         order = str(rng.choice(ORDERS))
     rows = order_rows(rng, dedupe(rows), order)
     return {'rows': rows, 'names': names, 'order': order, 'fam': 'chain'}
+
+
+def layered_mock_scene(rng, layers, nce=2, span=1200.0, step=15.0):
+    """Sparse Gaussian layers [(height, std, coverage), ...] seen by nce ceilometers (up to 3 hits per measurement):
+    the kind of scene the package's own mocker produces."""
+    rows = []
+    names = ['c%d' % i for i in range(nce)]
+    for ci, c in enumerate(names):
+        for t in np.arange(-span, 0.1, step):
+            hs = sorted(float(rng.normal(h, sd)) for (h, sd, f) in layers if rng.uniform() < f)
+            if not hs:
+                rows.append([c, float(t) - ci * 0.3, float('nan'), 0])
+            for k, h in enumerate(hs[:3]):
+                rows.append([c, float(t) - ci * 0.3, h, k + 1])
+    return {'rows': rows, 'names': names, 'order': 'none', 'fam': 'layered_mock'}
+
+
+MERGE3TO2_LAYERS = [[(1000, 40, .3), (1220, 40, .3), (1800, 40, .3), (6000, 60, .5), (6700, 60, .5)],
+                    [(1000, 40, .3), (1580, 40, .3), (1800, 40, .3), (6000, 60, .5), (6700, 60, .5)],
+                    [(1000, 30, .35), (1200, 30, .35), (1900, 30, .35), (6000, 40, .5), (6800, 40, .5)]]
+
+
+def time_sliced_scene(rng):
+    """A handful of time steps far apart, to be sliced by time (small dt_scale, huge min_range): every slice holds
+    the 1-3 rows of one time step - two distinct heights, the same height reported under several hit types, the
+    same height seen by two instruments, a single hit - so that bundles of 'overlapping' slices of every small
+    composition occur."""
+    n = int(rng.integers(3, 8))
+    h0 = float(rng.choice([300.0, 2000.0, 15000.0]))
+    rows = []
+    for t in range(n):
+        dt = -300.0 * (n - 1 - t)
+        h = h0 + float(rng.integers(-6, 7)) * 10.0
+        kind = int(rng.integers(0, 6))
+        if kind == 0:
+            rows += [['A', dt, h, 1], ['A', dt, h + float(rng.choice([400.0, 1000.0])), 2]]
+        elif kind == 1:
+            rows += [['A', dt, h, 1], ['A', dt, h, 2]]
+        elif kind == 2:
+            rows += [['A', dt, h, 1], ['A', dt, h, 2], ['A', dt, h, 3]]
+        elif kind == 3:
+            rows += [['A', dt, h, 1], ['B', dt, h, 1]]
+        elif kind == 4:
+            rows += [['A', dt, h, 1]]
+        else:
+            rows += [['A', dt, h, 1], ['B', dt, h + 5.0, 1], ['A', dt, h + 700.0, 2]]
+    if rng.uniform() < 0.3:
+        rows.append(['B', -300.0 * n, h0 + 500.0, 1])
+    return {'rows': dedupe(rows), 'names': ['A', 'B'], 'order': 'none', 'fam': 'timesliced'}
 
 
 def many_split_scene(rng, nlay=None):
